@@ -21,6 +21,39 @@ IMPORTS = ['From Coq Require Import List ZArith Bool.', 'Import ListNotations.',
 ROW_OK = ('(row_ok Gen.PassGroups.pass_table Gen.PyConv.py_args Gen.ClangDelta.registrations Gen.PyConv.clex_exact Gen.PyConv.clex_prefixed Gen.PyConv.lines_literals)')
 
 
+def run_python_rows(ctx, rows):
+    import tempfile
+    from cvise.cvise import CVise
+    from cvise.passes.abstract import ProcessEventNotifier
+    from cvise.utils.error import UnknownArgumentError
+    standins = os.path.join(os.path.dirname(os.path.dirname(os.path.abspath(__file__))), 'standins')
+    ext = {'topformflat': os.path.join(standins, 'topformflat'), 'unifdef': os.path.join(standins, 'unifdef'), 'clang-format': '/bin/true',
+           'clang_delta': os.path.join(standins, 'clang_delta'), 'clex': '/bin/false', 'gcov-dump': os.path.join(standins, 'gcov-dump')}
+    text = '#include <a.h>\n# 1 "x.c"\nint f(int a) {\n  // c\n  return (a ? 0x10 : 2) + g(1, b);   /* d */\n}\n\n#if FOO\nint g;\n#endif\nclass K { int h[3] = {1, 2}; };\n'
+    done = set()
+    for fname, cat, e in rows:
+        key = (e.get('pass'), e.get('arg'))
+        if key in done or e.get('pass') in ('clang', 'clangbinarysearch', 'clex', 'gcda-binary', None) or e.get('pass') not in CVise.pass_name_mapping:
+            continue
+        done.add(key)
+        d = tempfile.mkdtemp(prefix='c14row-', dir=ctx.tmp)
+        path = os.path.join(d, 't.c')
+        with open(path, 'w') as f:
+            f.write(text)
+        ctx.evaluations += 1
+        ctx.count('python-row-executed')
+        try:
+            p = CVise.pass_name_mapping[e['pass']](e.get('arg'), ext)
+            st = p.new(path, lambda: None)
+            if st is not None:
+                p.transform(path, st, ProcessEventNotifier(None))
+        except UnknownArgumentError as ex:
+            ctx.violation(f'row:{e.get("pass")}:{e.get("arg")}', f'{fname} ({cat}): pass={e.get("pass")!r} arg={e.get("arg")!r} is refused by the pass itself when it runs: {ex}',
+                          {'pass': e.get('pass'), 'arg': e.get('arg')})
+        except Exception:
+            pass      # (anything else is not about the argument)
+
+
 def explore(ctx):
     repo = os.environ.get('VERIF_REPO', '/repo')
     rows = []
@@ -34,6 +67,10 @@ def explore(ctx):
     ctx.count('shipped-rows', len(rows))
     ctx.extra['exhaustive'] = True
     ctx.sample({'row': rows[10][2], 'file': rows[10][0]})
+    # every shipped row of a Python text pass is also EXECUTED once (new() and one transform() on a small C text, tools
+    # replaced by stand-ins): an argument that new() takes but transform() refuses is not "accepted" - this is the search
+    # for a failing input when the argument tables can no longer be read off the source
+    run_python_rows(ctx, rows)
     # search for the offending rows (also the failing-input search when the theorem no longer builds)
     try:
         res = coq.eval_terms('c14rows', IMPORTS, [], [
